@@ -481,7 +481,7 @@ CLAUSES = [
         "pca_random",
         c_pca,
         s_pca_random,
-        quick=600,
+        quick=1500,
         thorough=20000,
         nt_floor=0.3,
         rule="n = 4..16, two drawn compositions of the same data compared with batch, reference and each other; vector and PointCloud-backed models",
@@ -490,7 +490,7 @@ CLAUSES = [
         "gmrf",
         c_gmrf,
         s_gmrf,
-        quick=800,
+        quick=2500,
         thorough=20000,
         nt_floor=0.3,
         rule="graph kind x class x features x mode x storage x bias; non-trivial: >= 2 unequal increments or an increment of one sample",
